@@ -23,6 +23,17 @@ func (r *Rng) Next() uint64 {
 	z = (z ^ (z >> 27)) * 0x94d049bb133111eb
 	return z ^ (z >> 31)
 }
+
+// mix64 decorrelates consecutive seeds (the generator's state advances by a constant, so seeds must not be
+// an affine function of that constant)
+func mix64(z uint64) uint64 {
+	z = (z ^ (z >> 30)) * 0xbf58476d1ce4e5b9
+	z = (z ^ (z >> 27)) * 0x94d049bb133111eb
+	z ^= z >> 31
+	z = (z ^ (z >> 33)) * 0xff51afd7ed558ccd
+	return z ^ (z >> 29)
+}
+
 func (r *Rng) Intn(n int) int {
 	if n <= 0 {
 		return 0
@@ -92,7 +103,7 @@ func NewCtx(prop, tier string, seed uint64, out, replay string) *Ctx {
 		out = filepath.Join(os.TempDir(), "verif-"+prop)
 	}
 	os.MkdirAll(out, 0o755)
-	c := &Ctx{Prop: prop, Tier: tier, Seed: seed, Out: out, Replay: replay, R: &Rng{s: seed*0x9e3779b97f4a7c15 + 0x1234567}}
+	c := &Ctx{Prop: prop, Tier: tier, Seed: seed, Out: out, Replay: replay, R: &Rng{s: mix64(seed ^ 0x5bf0_3635_d1c2_a7e9)}}
 	c.Res = Result{Property: prop, Tier: tier, Seed: seed, Histograms: map[string]map[string]int{}, ExtraCoverage: map[string]interface{}{}}
 	c.distinct = map[string]bool{}
 	c.vioCount = map[string]int{}
